@@ -11,6 +11,7 @@ import (
 type Case struct {
 	Harness string            `json:"harness"`
 	Inputs  map[string]string `json:"inputs"`
+	Repeat  int               `json:"repeat"` // run up to this many times until the outcome is not "ok" (schedule / map-order dependent cases)
 }
 
 type CaseResult struct {
@@ -53,39 +54,49 @@ func RunCases(hs map[string]func()) {
 			enc.Encode(res)
 			continue
 		}
-		func() {
-			defer func() {
-				r := recover()
-				res.Obs = ObsLog
-				switch x := r.(type) {
-				case nil:
-					res.Outcome = "ok"
-					if allocExceeded() {
-						res.Outcome = "allocfail"
-						res.Label = "allocation beyond limit"
+		reps := c.Repeat
+		if reps < 1 {
+			reps = 1
+		}
+		for rep := 0; rep < reps; rep++ {
+			res = CaseResult{Idx: i, Harness: c.Harness}
+			func() {
+				defer func() {
+					r := recover()
+					res.Obs = ObsLog
+					switch x := r.(type) {
+					case nil:
+						res.Outcome = "ok"
+						if allocExceeded() {
+							res.Outcome = "allocfail"
+							res.Label = "allocation beyond limit"
+						}
+					case CheckFailure:
+						res.Outcome = "checkfail"
+						res.Label = x.Label
+					case assumeFailed:
+						res.Outcome = "assumefail"
+					default:
+						res.Outcome = "panic"
+						if e, ok := r.(error); ok {
+							res.Label = e.Error()
+						} else {
+							res.Label = fmt.Sprint(r)
+						}
+						st := string(debug.Stack())
+						if len(st) > 4000 {
+							st = st[:4000]
+						}
+						res.Stack = strings.ReplaceAll(st, "\t", " ")
 					}
-				case CheckFailure:
-					res.Outcome = "checkfail"
-					res.Label = x.Label
-				case assumeFailed:
-					res.Outcome = "assumefail"
-				default:
-					res.Outcome = "panic"
-					if e, ok := r.(error); ok {
-						res.Label = e.Error()
-					} else {
-						res.Label = fmt.Sprint(r)
-					}
-					st := string(debug.Stack())
-					if len(st) > 4000 {
-						st = st[:4000]
-					}
-					res.Stack = strings.ReplaceAll(st, "\t", " ")
-				}
+				}()
+				SetCase(c.Inputs)
+				h()
 			}()
-			SetCase(c.Inputs)
-			h()
-		}()
+			if res.Outcome != "ok" {
+				break
+			}
+		}
 		enc.Encode(res)
 	}
 }
